@@ -580,8 +580,11 @@ impl<TokenIter: Iterator<Item = Result<Token>>> Parser<TokenIter> {
                                         let mut expanded_datum =
                                             transformer.transform(keyword, remained)?;
                                         // the expansion stands where the macro use stood, not where
-                                        // the template was written
-                                        expanded_datum.location = location;
+                                        // the template was written (forms of the use keep their own
+                                        // locations, forms built from the template have none)
+                                        if expanded_datum.location.is_none() {
+                                            expanded_datum.location = location;
+                                        }
                                         Self::transform_to_statement(expanded_datum, syntax_env)?
                                     } else {
                                         Self::transform_procedure_call(
